@@ -233,7 +233,7 @@ class Sim:
                 if not self.eof or self.pending:
                     self.problem("eof-before-data", f"{op} stopped with eof={self.eof} pending={bytes(self.pending)!r}")
                 return ("stop",)
-            if isinstance(exc, RuntimeError) and op in ("nowait1", "nowaitall") and self.task is not None:
+            if isinstance(exc, RuntimeError) and op in ("nowait1", "nowaitall", "nowait-2") and self.task is not None:
                 return ("raise", "RuntimeError")
             self.problem("unexpected-exception:" + type(exc).__name__, f"{op} raised {exc!r}")
             self._resync()
@@ -389,9 +389,15 @@ class Sim:
                 self.pending[:0] = data
                 self.bounds = [b + len(data) for b in self.bounds]
                 self.req = [b + len(data) for b in self.req]
-            elif op in ("nowait1", "nowaitall"):
+            elif op in ("nowait1", "nowaitall", "nowait-2"):
+                from mc import core
                 try:
-                    res = r.read_nowait(1 if op == "nowait1" else -1)
+                    with core.deadline(2.0):
+                        res = r.read_nowait({"nowait1": 1, "nowaitall": -1, "nowait-2": -2}[op])      # any negative n: everything
+                except core.ExecutionTimeout:
+                    self.problem("read_nowait-does-not-return", f"read_nowait({-2 if op == 'nowait-2' else op}) spins with {bytes(self.pending)!r} buffered")
+                    self._resync()
+                    obs = ("hang",)
                 except BaseException as e:  # noqa: BLE001
                     obs = self._check_result(op, None, e)
                 else:
@@ -577,6 +583,20 @@ def run(ctx):
     for config, depth in plan:
         bfs.bfs(ctx, _spec(config), depth)
     bfs.bfs(ctx, _spec({"empty": True}), 5 if ctx.quick else 6)
+    # read sizes outside the documented domain: every negative n means "everything" for read(); read_nowait() must
+    # at least return.  A handful of buffer shapes, each under a CPU deadline (a spin is a violation, not a hang).
+    for hist in ([], ["fa"], ["f5"], ["fcd", "f5"], ["f5", "read2"], ["fa", "eof"]):
+        for op in ("nowait-2",):
+            sim = Sim({"limit": 4})
+            for h in hist:
+                sim.apply(h)
+            n0 = len(sim.problems)
+            sim.apply(op)
+            ctx.count("executions")
+            ctx.count("transitions", len(hist) + 1)
+            for sig, msg in sim.problems[n0:]:
+                ctx.violation(sig, msg, {"kind": "seq", "spec": _spec({"limit": 4}), "hist": list(hist) + [op]})
+            sim.close()
     ctx.notes["depth_plan"] = [[c, d] for c, d in plan]
     # depth-bounded BFS never exhausts an infinite history space: report the bound
     ctx.notes["bound"] = "all histories up to the per-config depth in depth_plan"
